@@ -37,6 +37,9 @@ var c18Kinds = []c18Kind{
 	{"gp1-src", "gp1", "src", "example.com/a/a.go", true, "", "example.com/a.A"},
 	{"gp1-src-sub", "gp1", "src", "example.com/a/sub/s.go", true, "", "example.com/a/sub.S"},
 	{"gp1-src-missing", "gp1", "src", "example.com/gone/g.go", false, "", "example.com/gone.G"},
+	{"gp1-src-missing-same-dir", "gp1", "src", "example.com/a/0absent.go", false, "", "example.com/a.Absent"},
+	{"stdlib-missing-same-dir", "goroot", "src", "fmt/aaa_absent.go", false, "", "fmt.Absent"},
+	{"gp1-pkgmod-missing-same-dir", "gp1", "pkg/mod", "github.com/u/dep@v1.0.0/a_absent.go", false, "", "github.com/u/dep.Absent"},
 	{"gp1-pkgmod", "gp1", "pkg/mod", "github.com/u/dep@v1.0.0/d.go", true, "", "github.com/u/dep.D"},
 	{"gp1-pkgmod-inner", "gp1", "pkg/mod", "github.com/u/dep@v1.0.0/inner/i.go", true, "", "github.com/u/dep/inner.I"},
 	{"gp2-src", "gp2", "src", "example.org/b/b.go", true, "", "example.org/b.B"},
@@ -182,7 +185,17 @@ func (c c18Cfg) expect(root string) (wants []c18Want, remoteGOROOT string, remot
 		// A file that exists locally at its remote path although it lies under no detected
 		// root is taken for a `go run` file (documented behaviour): only the general
 		// invariants are checked for it, and the module map is not compared.
-		accidental := k.exists && !c.renamed[k.root] && !detected[k.root] && (k.root == "goroot" || strings.HasPrefix(k.root, "gp"))
+		accidental := !c.renamed[k.root] && !detected[k.root] && (k.root == "goroot" || strings.HasPrefix(k.root, "gp"))
+		if accidental && !k.exists {
+			// an absent file next to such a `go run` file falls under its directory root
+			accidental = false
+			for _, kj := range c.frames {
+				o := &c18Kinds[kj]
+				if o.exists && o.root == k.root && o.sub == k.sub && strings.HasPrefix(k.rel, path.Dir(o.rel)+"/") {
+					accidental = true
+				}
+			}
+		}
 		if accidental {
 			gomods["*"] = "*"
 			wants = append(wants, w)
